@@ -53,5 +53,8 @@ Judge(o) ==
     ELSE IF o.k = "round" THEN JudgeRound(o)
     ELSE IF o.k = "total" THEN JudgeTotal(o)
     ELSE IF o.k = "flags" THEN JudgeFlags(o)
+    ELSE IF o.k = "kept" THEN
+        \* the bytes Build returned are the caller's: they read the same after every later Build
+        (IF o.changed > 0 THEN << RFlag("C06", "bytes returned by an earlier Build changed when later rules were built") >> ELSE << >>)
     ELSE << >>
 =============================================================================
